@@ -160,6 +160,12 @@ def run_property(prop, tier="quick", seed=0, no_cache=False, repo=None, facts_di
                        "explain_cmd": "./check %s --explain %s" % (prop, path)}, fh, indent=1)
         print("VIOLATION property=%s replay=%s" % (prop, path), file=out)
         print("  rule=%s instance=%s at %s: %s" % (o["rule"], o["instance"], o["where"], o["msg"]), file=out)
+    selftest = None
+    if tier == "thorough":
+        selftest = mutant_selftest(prop, out)
+        missed = [r["seed"] for r in selftest if r["status"] == "MISSED"]
+        if missed:
+            print("SELFTEST-WEAK: property=%s seeded change(s) not detected by the current rules: %s (recorded in evidence; not a violation of the tree)" % (prop, ", ".join(missed)), file=out)
     wall = time.time() - t0
     n_obl = len(obligations)
     n_ok = sum(1 for o in obligations if o["ok"])
@@ -203,6 +209,7 @@ def run_property(prop, tier="quick", seed=0, no_cache=False, repo=None, facts_di
                 "trusted_base": ctx.trusted_base,
                 "known_findings_hit": [k for k, _ in known_hits],
                 "notes": ctx.notes,
+                "mutant_selftest": selftest,
                 "exhaustive": True,
             },
             "assumptions": ctx.assumptions,
@@ -235,6 +242,40 @@ def controls_facts():
     F = fx.load(d)
     _CONTROLS = (F, gx.Graph(F))
     return _CONTROLS
+
+
+def mutant_selftest(prop, out=sys.stdout):
+    """thorough tier: every seeded change of this property (seeded/<prop>-*/patch.diff) is applied to a scratch copy of the
+    current tree, facts are re-extracted from that copy and the same rules must report a violation. Static: the mutated
+    source is analysed, never executed. A patch that no longer applies is `stale`."""
+    import glob as _glob
+    import subprocess as _sp
+    results = []
+    seeds = sorted(_glob.glob(os.path.join(VERIF, "seeded", prop + "-*", "patch.diff")))
+    for patch in seeds:
+        name = os.path.basename(os.path.dirname(patch))
+        try:
+            scratch = ex.scratch_copy()
+            r = _sp.run(["git", "apply", "--unsafe-paths", "--directory", scratch, patch], capture_output=True, text=True, cwd="/")
+            if r.returncode != 0:
+                r = _sp.run(["patch", "-p1", "-s", "-d", scratch, "-i", patch], capture_output=True, text=True)
+            if r.returncode != 0:
+                results.append({"seed": name, "status": "stale", "detail": (r.stderr or r.stdout)[-200:]})
+                continue
+            facts_dir, digest, fresh, ext_s = ex.extract(scratch)
+            F = fx.load(facts_dir)
+            ctx = Ctx(prop, F, gx.Graph(F), "thorough", 0, digest, fresh)
+            mod = importlib.import_module("rules." + prop)
+            mod.run(ctx)
+            viol = [o for r_ in ctx.rules for o in r_.obligations if not o["ok"]]
+            results.append({"seed": name, "status": "detected" if viol else "MISSED", "violations": [vkey(prop, o) for o in viol][:5]})
+        except ex.Broken as e:
+            results.append({"seed": name, "status": "broken", "detail": str(e)[-300:]})
+        finally:
+            ex.remove_scratch()
+    for r in results:
+        print("mutant %s: %s %s" % (r["seed"], r["status"], "; ".join(r.get("violations", [])[:2])), file=out)
+    return results
 
 
 def main(argv):
